@@ -166,6 +166,9 @@ func (e *Engine) evalBuiltin(name string, cx *ast.CallExpr, st *State) Value {
 			st.assume(mkCmp(">=", e.slen(id), mkInt(0)))
 			e.idTerms[id.String()] = id
 			e.madeHere[id.String()] = true
+			st.mem["closed:"+id.String()] = tFalse
+			st.mem["sent:"+id.String()] = mkInt(0)
+			st.mem["consumed:"+id.String()] = mkInt(0)
 			return VStream{ID: id, Elem: u.Elem()}
 		case *types.Slice:
 			n := term(e.eval(cx.Args[1], st))
@@ -387,7 +390,7 @@ func (e *Engine) mergeInto(dst *State, outs []Out, results *types.Tuple) Value {
 			}
 			switch {
 			case strings.HasPrefix(k, "closed:"):
-				return tFalse
+				return nil
 			case strings.HasPrefix(k, "fld:"):
 				return nil
 			}
@@ -761,7 +764,29 @@ func (e *Engine) callContract(c *Contract, fn *types.Func, recvName string, recv
 		t := term(e.evalSpec(cl.Expr, mkEnv(st, pre)))
 		st.assume(t)
 	}
-	// slices of streams returned: register elements as owned when the length is literal after assumptions? (handled at use)
+	// slices of streams returned: if an ensures pins the length to a literal, use it and own the elements
+	for i, r := range results {
+		sl, ok := r.(VSlice)
+		if !ok || !isChan(sl.Elem) {
+			continue
+		}
+		for _, a := range st.pc {
+			if a.Op == "=" && len(a.Args) == 2 && a.Args[0].String() == sl.Len.String() && a.Args[1].Op == "int" {
+				sl.Len = a.Args[1]
+			}
+		}
+		results[i] = sl
+		if sl.Len.Op == "int" && sl.Len.Int.IsInt64() && sl.Len.Int.Int64() <= 16 {
+			for k := int64(0); k < sl.Len.Int.Int64(); k++ {
+				id := mkSelect(sl.Arr, mkInt(k))
+				st.owned[id.String()] = callee + " result[" + fmt.Sprint(k) + "] at " + where
+				e.idTerms[id.String()] = id
+			}
+		}
+	}
+	if len(results) == 1 {
+		names["result"] = results[0]
+	}
 	// closures
 	for _, cf := range clos {
 		e.handleClosureArg(cf.lit, cf.fv, st, where)
